@@ -28,10 +28,22 @@ def now():
     return round(time.time() - T0, 3)
 
 
+OUT = {"events": EVENTS, "config": None, "error": None, "complete": False}
+
+
+def dump():
+    """the result file is rewritten after every observation, so that a driver that has to be killed still leaves its record"""
+    if len(sys.argv) > 2:
+        tmp = sys.argv[2] + ".tmp"
+        json.dump(OUT, open(tmp, "w"), indent=1, default=str)
+        os.replace(tmp, sys.argv[2])
+
+
 def ev(_name, **kw):
     kw["ev"] = _name
     kw["t"] = now()
     EVENTS.append(kw)
+    dump()
     return kw
 
 
@@ -269,7 +281,7 @@ def scenario_network(spec):
         for step in spec["steps"]:
             op = step["op"]
             if start_failed and op in ("ready", "program", "epr"):
-                ev("skipped", op=op, why="the preceding start() raised")
+                ev("skipped", op=op, why="the preceding start() raised or the network did not come up")
                 continue
             if op == "start":
                 t = time.time()
@@ -287,6 +299,9 @@ def scenario_network(spec):
                 ok, seq = wait_ready(cfg, nodes, lim["ready"])
                 ev("ready", ok=ok, polls=len(seq), first=seq[0], last=seq[-1],
                    alive=[bool(p.is_alive()) for p in nw.processes], running_property=bool(nw.running) if ok else None)
+                if not ok:
+                    ev("aborted", why="the network did not come up; remaining steps dropped, stopping")
+                    break
             elif op == "program":
                 for n in nodes:
                     ev("program", node=n, **pb_program(cfg[n]["vnode"], lim["program"]))
@@ -305,7 +320,8 @@ def scenario_network(spec):
                 alive_flags = [bool(p.is_alive()) for p in nw.processes]
                 dead = wait_dead(pids, lim["dead"])
                 ev("stop", error=err, took=took, alive=alive_flags, pids=pids, all_dead=dead,
-                   os_alive=[pid_alive(p) for p in pids], ports=ports_report(cfg, nodes), running_flag=bool(nw._running))
+                   os_alive=[pid_alive(p) for p in pids], ports=ports_report(cfg, nodes), running_flag=bool(nw._running),
+                   running_property=bool(nw.running))
             elif op == "reopen":
                 # a second Network object on the configuration written by the first one (new=False), as the CLI does
                 nw = Network(name, None, None, force=True, new=False)
@@ -345,6 +361,7 @@ def scenario_stagger(spec):
     retry = float(simulaqron_settings.conn_retry_time)
     ev("configured", config=cfg, conn_retry_time=retry, network_config_file=path)
     launched = {}            # (kind, node) -> Popen
+    settled_ok = False
 
     def poll_checks(tag):
         for n in nodes:
@@ -382,9 +399,13 @@ def scenario_stagger(spec):
                         break
                     time.sleep(0.25)
                 time.sleep(4 * retry)
-                ev("settled", ports=ok_ports, alive={"%s/%s" % k: (p.poll() is None) for k, p in launched.items()})
+                e = ev("settled", ports=ok_ports, alive={"%s/%s" % k: (p.poll() is None) for k, p in launched.items()})
                 poll_checks("final")
                 poll_checks("final")
+                settled_ok = ok_ports and all(e["alive"].values()) and all(
+                    x["answer"] for x in EVENTS if x["ev"] == "check" and x["tag"] == "final")
+            elif op in ("program", "epr") and not settled_ok:
+                ev("skipped", op=op, why="the network did not come up")
             elif op == "program":
                 for n in nodes:
                     ev("program", node=n, **pb_program(cfg[n]["vnode"], lim["program"]))
@@ -413,21 +434,20 @@ def scenario_stagger(spec):
 
 def main():
     spec = json.load(open(sys.argv[1]))
-    out = {"events": EVENTS, "config": None, "error": None}
+    out = OUT
     try:
         out["config"] = (scenario_network if spec["kind"] == "network" else scenario_stagger)(spec)
     except BaseException:
         out["error"] = traceback.format_exc()[-3000:]
     finally:
+        out["complete"] = True
         for p in CHILDREN:
             try:
                 if p.poll() is None:
                     p.kill()
             except Exception:
                 pass
-        tmp = sys.argv[2] + ".tmp"
-        json.dump(out, open(tmp, "w"), indent=1, default=str)
-        os.replace(tmp, sys.argv[2])
+        dump()
     # the node processes are not daemonic (network.py sets the misspelt attribute `deamon`), so a normal interpreter exit would
     # join them; everything worth knowing has been written, leave at once (the parent kills the process group anyway)
     sys.stdout.flush()
